@@ -7,6 +7,7 @@ mod s_basic;
 mod s_codec;
 mod nodes;
 mod s_registry;
+mod s_retain;
 
 #[global_allocator]
 static GLOBAL: alloc::Counting = alloc::Counting;
@@ -18,6 +19,15 @@ pub struct Out {
 }
 impl Out {
     pub fn line(&mut self, s: &str) {
+        self.w.write_all(s.as_bytes()).unwrap();
+        self.w.write_all(b"\n").unwrap();
+    }
+    /// first part of a line, flushed at once (see s_retain)
+    pub fn begin(&mut self, s: &str) {
+        self.w.write_all(s.as_bytes()).unwrap();
+        self.w.flush().unwrap();
+    }
+    pub fn end(&mut self, s: &str) {
         self.w.write_all(s.as_bytes()).unwrap();
         self.w.write_all(b"\n").unwrap();
     }
@@ -79,6 +89,7 @@ fn main() {
                 "path" => s_basic::replay_path(line, &mut out),
                 "codec" => s_codec::replay_codec(line, &mut out),
                 "registry" => s_registry::replay_registry(line, &mut out),
+                "retain" => s_retain::replay_retain(line, &mut out),
                 s => Err(format!("no replay for stream {s}")),
             };
             if let Err(e) = r {
@@ -95,6 +106,7 @@ fn main() {
         "path" => s_basic::path(&mut rng, n, thorough, &mut out),
         "codec" => s_codec::codec(&mut rng, n, thorough, &mut out),
         "registry" => s_registry::registry(&mut rng, n, thorough, &mut out),
+        "retain" => s_retain::retain(&mut rng, n, thorough, &mut out),
         s => {
             eprintln!("unknown stream {s}");
             std::process::exit(2)
